@@ -505,6 +505,19 @@ func (m *Machine) floatBinop(it *Item, op token.Token, a, b T) Value {
 		m.fail("fp op %v", op)
 	}
 	zero := c.Real(big.NewRat(0, 1))
+	if m.inHarness(it) {
+		// harness float arithmetic is exact real arithmetic (the oracle is not subject to rounding)
+		switch op {
+		case token.ADD:
+			return c.Bin(sym.OpAdd, a, b)
+		case token.SUB:
+			return c.Bin(sym.OpSub, a, b)
+		case token.MUL:
+			return c.Bin(sym.OpMul, a, b)
+		case token.QUO:
+			return c.Bin(sym.OpRDiv, a, b)
+		}
+	}
 	switch op {
 	case token.ADD:
 		return m.approx(it, c.Bin(sym.OpAdd, a, b), "fadd")
@@ -648,6 +661,9 @@ func (m *Machine) convert(it *Item, x *ssa.Convert) Value {
 		return m.normInt(it, to, t, "conversion")
 	case fromInt && toFloat:
 		t := v.(T)
+		if m.IntMode && m.inHarness(it) {
+			return c.Un(sym.OpToReal, sym.SReal, t)
+		}
 		if m.IntMode {
 			ex := c.Un(sym.OpToReal, sym.SReal, t)
 			if t.IsConst() {
